@@ -231,21 +231,37 @@ pub fn say(s: &str) {
     }
 }
 
-/// Run `f` with fd 1 redirected into a scratch file and return what was written.
+static CAP_FD: OnceLock<i32> = OnceLock::new();
+
+/// Run `f` with fd 1 redirected into a memfd and return what was written.
 /// (Process-global: callers are serial inside one worker process.)
 pub fn capture_stdout<R>(f: impl FnOnce() -> R) -> (R, Vec<u8>) {
     silence_stdout();
-    let path = scratch_dir().join("stdout.cap");
-    let file = std::fs::OpenOptions::new().create(true).write(true).truncate(true).read(true).open(&path).expect("cap file");
+    let cap = *CAP_FD.get_or_init(|| unsafe { libc::memfd_create(c"sqv-stdout".as_ptr(), 0) });
+    assert!(cap >= 0, "memfd_create");
     let _ = std::io::stdout().flush();
+    unsafe {
+        libc::ftruncate(cap, 0);
+        libc::lseek(cap, 0, libc::SEEK_SET);
+    }
     let prev = unsafe { libc::dup(1) };
-    unsafe { libc::dup2(file.as_raw_fd(), 1) };
+    unsafe { libc::dup2(cap, 1) };
     let r = f();
     let _ = std::io::stdout().flush();
     unsafe {
         libc::dup2(prev, 1);
         libc::close(prev);
     }
-    let out = std::fs::read(&path).unwrap_or_default();
+    let len = unsafe { libc::lseek(cap, 0, libc::SEEK_END) };
+    let mut out = vec![0u8; len.max(0) as usize];
+    let mut off = 0usize;
+    while off < out.len() {
+        let n = unsafe { libc::pread(cap, out[off..].as_mut_ptr() as *mut libc::c_void, out.len() - off, off as libc::off_t) };
+        if n <= 0 {
+            break;
+        }
+        off += n as usize;
+    }
+    out.truncate(off);
     (r, out)
 }
